@@ -68,6 +68,7 @@ package value
 //@ func ToScalar
 //@   props C19 C12
 //@   requires AllTVWf() && tv != nil
+//@   modifies ghost lastJSONErr
 //@   ensures [string C19] tv != nil && isa(tv.Value.(*pb.TypedValue_StringVal)) ==> res1 == nil && res0 == box(tv.Value.(*pb.TypedValue_StringVal).StringVal)
 //@   ensures [int C19] tv != nil && isa(tv.Value.(*pb.TypedValue_IntVal)) ==> res1 == nil && res0 == box(tv.Value.(*pb.TypedValue_IntVal).IntVal)
 //@   ensures [uint C19] tv != nil && isa(tv.Value.(*pb.TypedValue_UintVal)) ==> res1 == nil && res0 == box(tv.Value.(*pb.TypedValue_UintVal).UintVal)
